@@ -135,6 +135,9 @@ func open(cfg Config, lines []*Line) (s *session, err error) {
 		vm = vm.Copy()
 	}
 	if cfg.Mutate != "" {
+		// a cross-wired library can recurse without end (toLocaleString := toString ...): otto has no
+		// default limit and a Go stack overflow cannot be recovered
+		vm.SetStackDepthLimit(400)
 		if _, err := vm.Run(cfg.Mutate); err != nil {
 			return nil, fmt.Errorf("mutation %q: %v", cfg.Mutate, err)
 		}
@@ -256,6 +259,23 @@ func (s *session) replay(c *core.Ctx, t *tally) []mismatch {
 	return bad
 }
 
+// secondPass observes every line again on the same runtime and reports the
+// lines whose observation changed.
+func (s *session) secondPass() []string {
+	first := make([]string, len(s.lines))
+	for i, l := range s.lines {
+		first[i], _ = s.observe(l)
+	}
+	var diff []string
+	for i, l := range s.lines {
+		o, _ := s.observe(l)
+		if o != first[i] {
+			diff = append(diff, l.label()+": "+trunc(first[i], 200)+" then "+trunc(o, 200))
+		}
+	}
+	return diff
+}
+
 func (s *session) str(fn string, args ...any) (string, error) {
 	v, err := s.vm.Call(fn, nil, args...)
 	if err != nil {
@@ -351,6 +371,7 @@ func Check(c *core.Ctx) (map[string]any, []string, error) {
 		t    tally
 		bad  []mismatch
 		err  error
+		second   []string
 		dump     string
 		dumpSkip bool
 		xtra     string
@@ -368,6 +389,10 @@ func Check(c *core.Ctx) (map[string]any, []string, error) {
 				return
 			}
 			r.bad = s.replay(c, &r.t)
+			if c.Thorough() {
+				// using the library does not change it: a second pass over the same runtime observes the same
+				r.second = s.secondPass()
+			}
 			r.xtra = extrasOf(cfgs[i], lines)
 			if cfgs[i].Copy != "after" {
 				// the complete shape of everything reachable from the global object
@@ -390,6 +415,9 @@ func Check(c *core.Ctx) (map[string]any, []string, error) {
 		conform += r.t.conform
 		devHits += r.t.dev
 		perCfg[cfgs[i].Name] = map[string]any{"lines": r.t.evals, "conforming": r.t.conform, "conforming_to_known_deviation": r.t.dev, "rejected": len(r.bad)}
+		for _, d := range r.second {
+			c.Violate(fmt.Sprintf("[%s] a second pass over the same runtime observes something else: %s", cfgs[i].Name, d), map[string]any{"config": cfgs[i], "difference": d})
+		}
 		if len(r.bad) == 0 {
 			continue
 		}
@@ -461,7 +489,18 @@ func Check(c *core.Ctx) (map[string]any, []string, error) {
 		}
 	}
 
-	// 6. thorough: the judge direction
+	// 5b. thorough: every function-valued property mutated three ways; runtimes created concurrently
+	var sweep, conc map[string]any
+	if c.Thorough() {
+		if sweep, err = mutationSweep(c, lines); err != nil {
+			return nil, nil, err
+		}
+		if conc, err = concurrentFresh(c, 16); err != nil {
+			return nil, nil, err
+		}
+	}
+
+	// 6. the judge direction
 	var judge map[string]any
 	{
 		judge, err = runJudge(c, lines)
@@ -495,6 +534,8 @@ func Check(c *core.Ctx) (map[string]any, []string, error) {
 		"extras_not_in_es5":    map[string]any{"count": nExtra, "by_owner": extraList},
 		"distinguishing_calls": dist,
 		"binding_self_test":    self,
+		"mutation_sweep":       sweep,
+		"concurrent_fresh":     conc,
 		"judge":                judge,
 	}
 	assume := []string{
@@ -643,4 +684,110 @@ func selfTest(lines []*Line) ([]map[string]any, error) {
 		}
 	}
 	return out, nil
+}
+
+// ownerExpr is the JavaScript path of a library object at the top level of a script.
+func ownerExpr(id string) string {
+	if id == "global" {
+		return "this"
+	}
+	return id
+}
+
+// mutationSweep: every function-valued property of the library is (1) made
+// enumerable, (2) deleted, (3) overwritten with its neighbour of the same
+// owner; each mutant runtime must be rejected by the replay (or be unusable
+// for the harness, which is a rejection too).
+func mutationSweep(c *core.Ctx, lines []*Line) (map[string]any, error) {
+	type mutant struct{ what, js string }
+	var ms []mutant
+	byOwner := map[string][]string{}
+	var owners []string
+	for _, l := range lines {
+		if l.K == "row" && l.Kind == "function" && !strings.HasPrefix(l.Owner, "i:") {
+			if _, ok := byOwner[l.Owner]; !ok {
+				owners = append(owners, l.Owner)
+			}
+			byOwner[l.Owner] = append(byOwner[l.Owner], l.Name)
+		}
+	}
+	for _, o := range owners {
+		ns := byOwner[o]
+		for i, n := range ns {
+			e := ownerExpr(o)
+			ms = append(ms, mutant{o + "." + n + " enumerable", fmt.Sprintf("Object.defineProperty(%s, '%s', {enumerable: true});", e, n)})
+			ms = append(ms, mutant{o + "." + n + " deleted", fmt.Sprintf("delete %s['%s'];", e, n)})
+			if len(ns) > 1 {
+				sib := ns[(i+1)%len(ns)]
+				ms = append(ms, mutant{o + "." + n + " := " + sib, fmt.Sprintf("%s['%s'] = %s['%s'];", e, n, e, sib)})
+			}
+		}
+	}
+	killed := make([]int, len(ms)) // 0 survived, 1 rejected by a line, 2 harness unusable
+	var wg sync.WaitGroup
+	sem := make(chan struct{}, c.Workers)
+	for i := range ms {
+		wg.Add(1)
+		sem <- struct{}{}
+		go func(i int) {
+			defer wg.Done()
+			defer func() { <-sem }()
+			defer func() {
+				if r := recover(); r != nil {
+					killed[i] = 2
+				}
+			}()
+			s, err := open(Config{Name: "mutant", Mutate: ms[i].js}, lines)
+			if err != nil {
+				killed[i] = 2
+				return
+			}
+			var t tally
+			if bad := s.replay(nil, &t); len(bad) > 0 {
+				killed[i] = 1
+			}
+		}(i)
+	}
+	wg.Wait()
+	var survived []string
+	n1, n2 := 0, 0
+	for i, k := range killed {
+		switch k {
+		case 0:
+			survived = append(survived, ms[i].what)
+		case 1:
+			n1++
+		case 2:
+			n2++
+		}
+	}
+	if len(survived) > 0 {
+		return nil, fmt.Errorf("mutation sweep: %d mutants were NOT rejected: %v", len(survived), survived)
+	}
+	return map[string]any{"mutants": len(ms), "rejected_by_a_line": n1, "rejected_harness_unusable": n2, "survived": len(survived)}, nil
+}
+
+// concurrentFresh creates n runtimes from n goroutines at once and compares their complete shape.
+func concurrentFresh(c *core.Ctx, n int) (map[string]any, error) {
+	dumps := make([]string, n)
+	errs := make([]error, n)
+	var wg sync.WaitGroup
+	for i := 0; i < n; i++ {
+		wg.Add(1)
+		go func(i int) {
+			defer wg.Done()
+			dumps[i], _, errs[i] = dumpOf(Config{Name: fmt.Sprintf("concurrent-%d", i), Copy: map[bool]string{true: "before", false: ""}[i%2 == 1]})
+		}(i)
+	}
+	wg.Wait()
+	for i := 0; i < n; i++ {
+		if errs[i] != nil {
+			return nil, errs[i]
+		}
+		if dumps[i] != dumps[0] {
+			d := firstDiff(dumps[0], dumps[i])
+			c.Violate(fmt.Sprintf("runtime %d of %d created concurrently differs in shape from the first: %s", i, n, d), map[string]any{"first_difference": d})
+		}
+	}
+	return map[string]any{"runtimes": n, "copies_among_them": n / 2, "identical": true}, nil
 }
